@@ -213,7 +213,7 @@ func (d *Driver) Materialize(v *Vector) error {
 		}
 	}
 	for _, x := range v.Settings {
-		if err := c.CreateSetting("ns1", x.Name, x.Ref, x.Sel, x.Res, x.Expr, time.Now().Add(-time.Duration(x.Age)*Unit)); err != nil {
+		if err := c.CreateSetting("ns1", x.Name, x.Ref, x.Sel, x.Res, x.Expr, c.settingInstant(x.Age)); err != nil {
 			return err
 		}
 	}
